@@ -343,6 +343,8 @@ def fin (c : Ctx) : Nat → Kont → STree
       let K' := Frame.run blk (pos + 1) :: rest
       match s with
       | .mtch r _ => if r.nullable then fin c fuel K' else finFail c
+      -- (a wait on a pattern that can match the empty string completes right here, as it does in `disp`)
+      | .wait r _ => if r.nullable then fin c fuel K' else finFail c
       | .act a =>
         match a with
         | .finish none => retHaltS "DONE"
